@@ -61,7 +61,20 @@ const MODS: &[Mod] = &[
       "export interface BT { b: number; extra?: string }\n",
     ],
   },
+  // a second top-level package that leads to @s/b as well
+  Mod {
+    pkg: "@s/d",
+    path: "/mod.ts",
+    variants: &[
+      "import type { BT } from \"jsr:@s/b@1\";\nexport function fd(x: BT): BT { return x; }\n",
+      "export function fd(x: number): number { return x; }\n",
+    ],
+  },
+  // which packages the root program imports: only @s/a / @s/a then @s/d / @s/d then @s/a / only @s/d
+  Mod { pkg: "root", path: "", variants: &["a", "ad", "da", "d"] },
 ];
+
+const ROOT_MOD: usize = 6;
 
 fn packages(variants: &[usize], two_entrypoints: bool, workspace: bool) -> Vec<FcPackage> {
   let files = |pkg: &str| -> Vec<(String, String)> {
@@ -79,6 +92,7 @@ fn packages(variants: &[usize], two_entrypoints: bool, workspace: bool) -> Vec<F
   vec![
     FcPackage { name: "@s/a".into(), version: "1.0.0".into(), files: files("@s/a"), exports: a_exports, workspace },
     FcPackage { name: "@s/b".into(), version: "1.0.0".into(), files: files("@s/b"), exports: vec![(".".to_string(), "./mod.ts".to_string())], workspace: false },
+    FcPackage { name: "@s/d".into(), version: "1.0.0".into(), files: files("@s/d"), exports: vec![(".".to_string(), "./mod.ts".to_string())], workspace: false },
   ]
 }
 
@@ -201,12 +215,14 @@ fn body(depth: usize) -> impl Fn(&Ch) -> Run + Sync + Send {
         history.push("run".into());
       }
       let pkgs = packages(&variants, two_entrypoints, workspace);
-      let Some(with_cache) = fast_check(&pkgs, Some(&cache), ch) else { break };
-      let Some(without) = fast_check(&pkgs, None, ch) else { break };
-      let Some(without2) = fast_check(&pkgs, None, ch) else { break };
+      let roots: Vec<usize> = MODS[ROOT_MOD].variants[variants[ROOT_MOD]].chars().map(|c| if c == 'a' { 0 } else { 2 }).collect();
+      let Some(with_cache) = fast_check_roots(&pkgs, &roots, Some(&cache), ch) else { break };
+      let Some(without) = fast_check_roots(&pkgs, &roots, None, ch) else { break };
+      let Some(without2) = fast_check_roots(&pkgs, &roots, None, ch) else { break };
       run.evals += 3;
       let case = |extra: Value| {
         json!({"two_entrypoints": two_entrypoints, "package_a_is_a_workspace_member": workspace, "history": history,
+          "root_imports": MODS[ROOT_MOD].variants[variants[ROOT_MOD]],
           "sources": pkgs.iter().flat_map(|p| p.files.iter().map(|(f, s)| json!([p.url(f), s]))).collect::<Vec<_>>(),
           "cache_traffic": cache.log.borrow().clone(),
           "with_cache": with_cache.modules.iter().map(|(u, (_, s))| (u.clone(), slot_brief(s))).collect::<BTreeMap<_, _>>(),
@@ -284,7 +300,7 @@ pub fn prop(tier: Tier) -> Prop {
   };
   Prop {
     id: "C12",
-    rule: format!("state = operation history of length <= {depth} over a two-package world (@s/a: mod.ts re-exporting a.ts, c.ts as optional second entrypoint, helper h.ts; @s/b imported by a.ts) with 2-3 source variants per module (clean / diagnostic-bearing / clean with different exports or imports); operations = run again, or edit one module to another variant and run; the fast-check cache is shared along the history (cold, warm, stale). After every operation: all-or-nothing per package (with and without cache), recorded dependencies of each emitted module = dependencies declared by its emitted text (re-analysed), with-cache result = cache-less result (set of modules with output / diagnostics, text, dependencies, source map), two cache-less runs identical. Histories are enumerated completely. Non-trivial = history of >= 2 operations."),
+    rule: format!("state = operation history of length <= {depth} over a three-package world (@s/a: mod.ts re-exporting a.ts, c.ts as optional second entrypoint, helper h.ts; @s/b imported by a.ts and by @s/d; the root program imports @s/a, @s/d or both in either order, and is editable too) with 2-3 source variants per module (clean / diagnostic-bearing / clean with different exports or imports); operations = run again, or edit one module to another variant and run; the fast-check cache is shared along the history (cold, warm, stale). After every operation: all-or-nothing per package (with and without cache), recorded dependencies of each emitted module = dependencies declared by its emitted text (re-analysed), with-cache result = cache-less result (set of modules with output / diagnostics, text, dependencies, source map), two cache-less runs identical. Histories are enumerated completely. Non-trivial = history of >= 2 operations."),
     assumptions: vec![
       "each operation rebuilds the graph from the current sources (an edit changes what the registry serves) and runs fast check against the shared cache".into(),
       "@s/a is either published to the registry or a local workspace member (file: URLs, WorkspaceFastCheckOption::Enabled); fast_check_dts is not part of the world".into(),
